@@ -92,13 +92,12 @@ func (w *world) read(k string, local bool) ([]byte, bool, string) {
 }
 
 func (w *world) awaitCall() *flushCall {
-	select {
-	case c := <-w.calls:
-		return c
-	case <-time.After(10 * time.Second):
-		w.fail("VERIF-INFRA: the flush function was not invoked within 10 s")
+	c, ok := ev.Await(w.calls, 600)
+	if !ok {
+		w.fail("VERIF-INFRA: the flush function was not invoked within 60 s")
 		return nil
 	}
+	return c
 }
 
 // complete releases the in-flight flush with err and moves its content to the remote model.
@@ -188,13 +187,12 @@ func TestPipelinedBuffer(t *testing.T) {
 			go func() { done <- f() }()
 			time.Sleep(200 * time.Microsecond)
 			w.complete(result)
-			select {
-			case err := <-done:
-				return err
-			case <-time.After(10 * time.Second):
+			err, ok := ev.Await(done, 600)
+			if !ok {
 				w.fail("a call waiting for the in-flight flush did not return after the flush completed")
 				return nil
 			}
+			return err
 		}
 		t.Repeat(map[string]func(*rapid.T){
 			"set": func(t *rapid.T) {
